@@ -2,6 +2,7 @@
 and the Spec oracle for the decision order."""
 import itertools
 from gen import ribcommon as R
+from gen import ribenum as E
 
 def split_hops(rng, h):
     """a segment list with exactly h hops (AS_SEQUENCE counts its length, AS_SET one, confederation
@@ -25,12 +26,13 @@ class Prop:
     props_file = 'Props/C02.v'
     ops_field = 'ops'
     required_theorems = ['cmp_code_refines_spec', 'hops_code_refines_spec', 'decision_order_total_preorder', 'dest_sorted_reachable',
-                         'best_eligible_maximal', 'ranking_order_independent', 'limited_and_ecmp_are_prefixes', 'ecmp_code_refines_spec', 'rs_local_best']
+                         'best_eligible_maximal', 'ranking_order_independent', 'limited_and_ecmp_are_prefixes', 'ecmp_code_refines_spec', 'rs_local_best', 'adj_in_view']
     extra_targets = ['Model/Rib.vo']
     correspondence_name = 'Model/Rib.v step vs rustybgp_table::Table (harness/hx-rib)'
     rule = ('histories of insert/replace/remove/drop/stale marks/purges/next-hop flips over 3 prefixes, 3 peers (each with a restarted '
             'session), attribute blocks from small colliding domains; non-trivial = some prefix holds >= 2 candidate paths at some step; '
-            'distinct = distinct sequence of ranked lists')
+            'distinct = distinct sequence of ranked lists'
+            ' Enumerated on every run (gen/ribenum.py, tags enum:*): every operation of a 90-operation alphabet on each of 21 pre-states; two-candidate duels deciding at exactly one step of the decision order with the loser better at every later step, single-step ECMP exclusions, complete ties, EVPN MAC-mobility forms in every extended-community layout, LLGR_STALE / NO_LLGR in every community position; AS_PATH hop counts on both sides of 0/1/63/64/65/127/128/255/256/510 in every segment shape including unknown segment types and hundreds of one-AS segments; 67 (thorough: 131) prefixes crossing the id bitmap words with ids freed and re-used; prefix limits 0/1/2/u32::MAX; u32 ends of path ids, LOCAL_PREF, router ids, CLUSTER_LIST lengths; all role pairs.')
     exhaustive = {'quick': False, 'thorough': False}
     trusted_base = ['one address family per case (the model is one family of one shard); flag flips happen only through restale/restale_llgr of that family '
                     '(the cross-shard / cross-family transient between a flag flip and the re-sort of another table is not modelled)',
@@ -41,8 +43,11 @@ class Prop:
     case_to_json = staticmethod(R.case_to_json)
     case_from_json = staticmethod(R.case_from_json)
 
+    enum_which = 'c02'
+
     def gen_cases(self, rng, tier):
-        cases = []
+        # classes enumerated on every run (gen/ribenum.py) come first
+        cases = E.all_enumerated(self.enum_which, tier)
         n = 600 if tier == 'quick' else 6000
         for k in range(n):
             evpn = (k % 7 == 6)
@@ -154,12 +159,42 @@ class Prop:
                         continue
                     bestk = min(ref.key(net, p) for p in cands)
                     g = got_rs.get(net, ())
-                    ok = [p for p in cands if ref.key(net, p) == bestk and (p['src'][0], p['attr']['tok']) == g]
+                    ok = [p for p in cands if ref.key(net, p) == bestk and (p['src'][0], R.orig_tok(p['attr'])) == g]
                     if not ok:
                         return 'step %d: RS-local view of peer %d for prefix %d shows %s, which is not a best path among the other route-server clients' % (k, a, net, g)
             for net in locd:
                 if net not in ref.paths:
                     return 'step %d: Loc-RIB lists prefix %d which holds no path' % (k, net)
+            # read-only views: the limited Loc-RIB collection is the head of the ranking; the
+            # Adj-RIB-In view of a peer and the soft-reset input are its paths in the RIB
+            if len(st) > 7:
+                lim1, lim2, adj = st[7]
+                for m, lv in ((1, lim1), (2, lim2)):
+                    got = {x[0]: [(p[0], p[1], p[2]) for p in x[1]] for x in lv}
+                    want = {x[0]: [(p[0], p[1], p[2]) for p in x[5]][:m] for x in loc}
+                    if got != want:
+                        return 'step %d: collect_loc_rib_paths_limited(%d) gives %s, the first %d paths of the Loc-RIB are %s' % (k, m, got, m, want)
+                addr_of = {}; orig_of = {}
+                for o2 in c['ops']:
+                    if o2[0] in ('ins', 'rem'):
+                        addr_of[o2[1][0]] = o2[1][1]
+                    if o2[0] == 'ins':
+                        orig_of[o2[5]['tok']] = R.orig_tok(o2[5])
+                for a, per in adj:
+                    if sorted(r[0] for r in per) != sorted(seen):
+                        return 'step %d: Adj-RIB-In view of peer %d lists prefixes %s, the RIB holds %s' % (k, a, sorted(r[0] for r in per), sorted(seen))
+                    for net, adj_f, adj_t, soft_f, soft_t in per:
+                        mine = [e for e in seen[net] if addr_of.get(e[1]) == a]
+                        view = lambda e: [e[0], e[1], orig_of.get(e[2], e[2]), e[3]]      # the view shows the attributes as received
+                        if [view(e) for e in mine] != adj_t:
+                            return 'step %d: Adj-RIB-In view (with filtered) of peer %d for prefix %d is %s, its paths in the RIB are %s' % (k, a, net, adj_t, mine)
+                        if [view(e) for e in mine if not e[3]] != adj_f:
+                            return 'step %d: Adj-RIB-In view of peer %d for prefix %d is %s, its accepted paths in the RIB are %s' % (k, a, net, adj_f, [e for e in mine if not e[3]])
+                        nh_of = {(p['src'][0], p['rpid']): p['nh'] for p in ref.paths.get(net, {}).values()}
+                        want_t = [[e[0], e[1], [] if nh_of.get((e[1], e[0])) is None else [nh_of[(e[1], e[0])]], orig_of.get(e[2], e[2])] for e in mine]
+                        want_f = [w for w, e in zip(want_t, mine) if not e[4]]
+                        if soft_t != want_t or soft_f != want_f:
+                            return 'step %d: soft-reset input of peer %d for prefix %d is %s / %s, expected %s / %s' % (k, a, net, soft_f, soft_t, want_f, want_t)
         return None
 
     def in_known_class(self, kf, c, obs, why):
@@ -174,6 +209,25 @@ class Prop:
 
     def classify(self, c, obs):
         tags = ['evpn' if c['evpn'] else 'ipv4', 'ops_%s' % ('<=8' if len(c['ops']) <= 8 else '9-16' if len(c['ops']) <= 16 else '17+')]
+        if c.get('cls'):
+            parts = c['cls'].split(':')
+            tags.append('enum:' + parts[0])
+            tags.append('enum:' + ':'.join(parts[:2]))
+            if parts[0] == 'sxo':
+                tags.append('enum:sxo:*:' + parts[2].split('+')[0])
+            else:
+                tags.append('enum:' + c['cls'])
         for o in c['ops']:
             tags.append('op_' + o[0] + (str(o[1]) if o[0] == 'drop' else ''))
+        if obs and obs[0] != -1:
+            for o, st in zip(c['ops'], obs):
+                nm = o[0] + (str(o[1]) if o[0] == 'drop' else ('_llgr' if o[0] == 'restale' and o[1] else ''))
+                if st[1]:
+                    tags.append('limit_exceeded')
+                if not st[0]:
+                    tags.append('silent_' + nm)
+                for ch in st[0]:
+                    tags.append('chg_%s_best%d_any%d_%s%s' % (nm, ch[2], ch[3], 'withdraw' if not ch[5] else 'paths', '_replaced' if ch[4] else ''))
+                if len(st[0]) > 1:
+                    tags.append('multi_change_' + nm)
         return sorted(set(tags))
